@@ -77,6 +77,11 @@ def scenarios(ctx):
         ("bad-shape-then-ok", {"cfg/10.yaml": "services: {a: {constructor: NewA, scope: bogus}}\n", "cfg/20.yaml": v}, ["cfg/*.yaml"]),
         ("broken-first-pattern", {"cfg/10.yaml": "services: [1, 2\n", "cfg/20.yaml": v}, ["cfg/10.yaml", "cfg/20.yaml"]),
         # ONE error whose message spans several lines (yaml.TypeError lists its lines): still one entry of the numbered list
+        # matches that cannot be read because they lead nowhere: a dangling symbolic link, a link loop — next to a readable file
+        ("dangling-symlink", {"cfg/a.yaml": v, "cfg/b.yaml": "<symlink:nowhere.yaml>"}, ["cfg/*.yaml"]),
+        ("dangling-symlink-literal", {"cfg/a.yaml": v, "cfg/b.yaml": "<symlink:nowhere.yaml>"}, ["cfg/a.yaml", "cfg/b.yaml"]),
+        ("symlink-loop", {"cfg/a.yaml": v, "cfg/b.yaml": "<symlink:c.yaml>", "cfg/c.yaml": "<symlink:b.yaml>"}, ["cfg/*.yaml"]),
+        ("symlink-to-file", {"cfg/a.yaml": v, "cfg/b.yaml": "<symlink:a.yaml>"}, ["cfg/b.yaml"]),
         ("multi-line-error", {"cfg/a.yaml": "services: \"none\"\nparameters: 5\n"}, ["cfg/a.yaml"]),
         ("multi-line-error-2", {"cfg/a.yaml": "services: {a: {arguments: 1, calls: 2, tags: 3}}\n"}, ["cfg/a.yaml"]),
         ("two-multi-line-errors", {"cfg/a.yaml": "services: \"none\"\nparameters: 5\n", "cfg/b.yaml": "meta: [1]\nservices: 7\n"}, ["cfg/a.yaml", "cfg/b.yaml"]),
@@ -117,6 +122,8 @@ def judge(sc, r):
     quiet = sc["flags"].get("quiet")
     if quiet and c["stdout"] != "":
         v.append(("quiet-prints", "--quiet printed %r" % c["stdout"][:200]))
+    if quiet and c["stderr"] != "" and not sc.get("stdout"):
+        v.append(("quiet-prints", "--quiet printed to the standard error: %r" % c["stderr"][:200]))
     if sc.get("stdout") and quiet and name.startswith("valid|") and c["exit"] != 0:
         v.append(("quiet-depends-on-stdout", "--quiet prints nothing, yet the run fails when the standard output is unusable: exit %r" % c["exit"]))
     if c["exit"] != 0 and not quiet and not sc.get("stdout"):
